@@ -180,4 +180,39 @@ theorem calcLine_invert (cur : String) (c : ℕ) (rates : List XRate) (r : Rule)
         simp only [hq, hd, hc, exact_mul, mulX_neg_right, applyRule_neg, lineDiscounts_neg, lineCharges_neg]
         simp [negLineOut, invertLine]
 
+/-- the same for a line with a breakdown: `Invert` leaves the sub-lines as they are (their total becomes
+the unit price), only the line's own quantity and adjustments change sign -/
+theorem calcLine_invert_breakdown (cur : String) (c : ℕ) (rates : List XRate) (r : Rule) (l : Line)
+    (hs : l.sum = none) (ht : l.total = none) :
+    calcLine exactOps cur c rates r (invertLine l) = (calcLine exactOps cur c rates r l).map negLineOut := by
+  unfold calcLine
+  have hbd' : (invertLine l).breakdown = l.breakdown := rfl
+  have hit : (invertLine l).item = l.item := rfl
+  simp only [hbd', hit]
+  cases l.item with
+  | none => simp [Except.map, negLineOut, invertLine, hs, ht]
+  | some it0 =>
+    simp only
+    cases calcSubLines exactOps cur c rates r l.breakdown with
+    | error e => simp [Except.map]
+    | ok bd =>
+      simp only
+      generalize (if (l.breakdown.isEmpty || (bd.filterMap (·.total)).isEmpty) = true then it0 else
+        { it0 with cur := cur, sub := c,
+                   price := some (exactOps.rescale ((bd.filterMap (·.total)).foldl (accum exactOps) ⟨0, c⟩) (subLinePrecision bd)),
+                   alts := [] }) = it1
+      cases it1.price with
+      | none => simp [Except.map, negLineOut, invertLine]
+      | some p0 =>
+        simp only
+        cases itemPrice exactOps cur c rates it1 p0 with
+        | error e => simp [Except.map]
+        | ok it2 =>
+          simp only [Except.map]
+          have hq : (invertLine l).qty = neg l.qty := rfl
+          have hd : (invertLine l).discounts = l.discounts.map invertAdj := rfl
+          have hc : (invertLine l).charges = l.charges.map invertAdj := rfl
+          simp only [hq, hd, hc, exact_mul, mulX_neg_right, applyRule_neg, lineDiscounts_neg, lineCharges_neg]
+          simp [negLineOut, invertLine]
+
 end GoblVerif.Calc
